@@ -2896,4 +2896,16 @@ theorem contractLeaf_inj (hI : Ideal A) {c s n c' s' n' : H}
   obtain ⟨h4, h5⟩ := hI.bin_inj _ _ _ _ h2
   exact ⟨h4, h5, h3⟩
 
+theorem pathOfNat_add_pow (h m : Nat) (hm : h ≤ m) (k : Nat) : pathOfNat h (2 ^ m + k) = pathOfNat h k := by
+  induction h with
+  | zero => rfl
+  | succ h ih =>
+    simp only [pathOfNat]
+    rw [ih (by omega), Nat.testBit_two_pow_add_gt (by omega)]
+
+theorem pathOfNat_length (h n : Nat) : (pathOfNat h n).length = h := by
+  induction h with
+  | zero => rfl
+  | succ h ih => simp [pathOfNat, ih]
+
 end Juno.C10
